@@ -106,6 +106,18 @@ pub fn run(o: &Opts) -> i32 {
                     }
                 }
             }
+            // a base unit whose name is also that of a long prefix (which is stored among the units too): the exact
+            // reading of a base unit's name is the base unit
+            {
+                let mut c = rink_core::Context::new();
+                let _ = c.load_definitions("m !meter\ndozen !\ndozen- 12\nk-- 1000\nbox 3 dozen\n");
+                for (n, want) in [("dozen", "1/1 dozen:1"), ("kdozen", "1000/1 dozen:1"), ("box", "3/1 dozen:1"), ("dozenm", "12/1 m:1"), ("dozens", "1/1 dozen:1")] {
+                    dbs_checked += 1;
+                    let got = show(c.lookup(n));
+                    if got != want { nviol += 1; writeln!(orc, "{}", json!({"law": "resolution-order", "name": n, "database": "base unit named like a long prefix", "impl": got, "spec": want})).unwrap(); }
+                    if let Some(cn) = c.canonicalize(n) { if c.lookup(&cn) != c.lookup(n) { nviol += 1; writeln!(orc, "{}", json!({"law": "canonical-changes-value", "name": n, "canon": cn, "value": got, "canon_value": show(c.lookup(&cn))})).unwrap(); } }
+                }
+            }
             // interleave with the bundled database
             let _ = ctx.lookup("kilometer"); let _ = ctx.lookup("dam");
         }
